@@ -65,6 +65,9 @@ def make_plan(tape, prop):
     plan["fault"] = tape.weighted([6, 1, 1, 1])   # none / missing include / cyclic include / EIO on include
     plan["fault_at"] = tape.draw(1 << 10)
     plan["values"] = [tape.draw(1 << 16) for _ in range(64)]
+    # a header without any declaration (licence / placeholder file) that several files include
+    plan["empty_header"] = tape.draw(1 << 8) if tape.chance(1, 4) else 0
+    plan["dirs"]["99"] = tape.draw(len(DIRS))
     return plan
 
 
@@ -108,6 +111,17 @@ class Arrangement(object):
                 g = owner.get(r)
                 if g is not None and g != f and g not in self.includes[f]:
                     self.includes[f].append(g)
+        self.header = None
+        if plan.get("empty_header"):
+            users = [f for i, f in enumerate(self.files) if (plan["empty_header"] >> i) & 1]
+            if len(users) >= 1:
+                self.header = 99
+                self.files = self.files + [99]
+                self.dir_of[99] = DIRS[plan["dirs"].get("99", 0) % len(DIRS)]
+                self.path_of[99] = "%s/p99.prophy" % self.dir_of[99]
+                self.includes[99] = []
+                for f in users:
+                    self.includes[f].insert(0, 99)
         self.decoys = {}
         self.via_inc_subdir = 0
         self.spell = {}
@@ -157,7 +171,10 @@ class Arrangement(object):
         for f in self.files:
             mine = [d for d, a in zip(self.defs, self.plan["assign"]) if a == f]
             incs = [self.spell[(f, g)] for g in self.includes[f]]
-            fs.put(self.path_of[f], render.prophy_text({"defs": mine}, includes=incs))
+            text = render.prophy_text({"defs": mine}, includes=incs)
+            if f == 99:
+                text = "/* placeholder header: no declarations */\n// nothing here\n"
+            fs.put(self.path_of[f], text)
         # decoy: same basename, different content, in a directory that comes later in the search order of *every*
         # file that includes g by its bare name (and is searched by at least one of them)
         if self.plan["decoy"] and self.plan["fault"] == 0:
@@ -187,7 +204,7 @@ class Arrangement(object):
             if self.plan["abs_inputs"]:
                 return p
             return _relpath(p, self.cwd)
-        order = sorted(range(len(self.files)), key=lambda i: (self.plan["input_order"][i], i))
+        order = sorted(range(len(self.files)), key=lambda i: (self.plan["input_order"][i % len(self.plan["input_order"])] + (7 * i if i >= len(self.plan["input_order"]) else 0), i))
         inputs = [show(self.path_of[self.files[i]]) for i in order]
         args = []
         for d in self.inc:
@@ -269,6 +286,8 @@ class FsRun(object):
             self.probe("include_through_second_spelling")
         if arr.cwd not in ("/w",):
             self.probe("compiled_from_other_cwd")
+        if arr.header and sum(1 for f in arr.files if 99 in arr.includes[f]) >= 2:
+            self.probe("empty_header_included_twice")
         if arr.via_inc_subdir:
             self.probe("include_with_subdirectory_found_through_-I")
         indeg = {}
